@@ -1,1 +1,175 @@
--- property theorems for C18 (stub)
+import RP.Props.C17
+/-! # C18 — A truncated table file is never loaded as if it were complete
+
+Model: the four loaders of `RP.Pgcopy` (`lean/RP/Model/Pgcopy.lean`), whose row loop is interpreted
+from the generated `load()` call lists and whose strictness (is the `0xFFFF` trailer mandatory?) is
+the generated flag `RP.Gen.Layout.<t>_strict`.
+
+* `C18_<table>` — for ALL table contents (rows in any order, any bit patterns) and EVERY byte offset
+  `k` below the file length: loading the first `k` bytes *fails*, or returns exactly what loading
+  the complete file returns.  Proved in the stronger form `C18_<table>_fails`: it always fails.
+  The proof is the prefix induction over rows of DESIGN A.6 (`loadLoop_trunc`): a cut inside a row
+  is a short read inside the row (the `expect` panic), a cut between rows or inside the header or
+  trailer is a short 2-byte read, which the repaired loaders turn into a failure.
+  The side condition `strict = true` is discharged by `decide` on the generated flag, so reverting
+  the repair (`while reader.read_exact(..).is_ok()`) breaks these theorems.
+* `C18_pinned_*` — the pinned (non-strict) loader semantics, kept as a proved counter-example:
+  for every table and every `j`, cutting the file after `j` complete rows loads exactly those `j`
+  rows without any error; with a concrete `decide`d witness that this differs from the complete
+  content. -/
+namespace RP.C18
+open RP.Pgcopy RP.C17 RP.Gen.Layout
+
+/-- the loaders insist on the trailer (generated from the source: `loop { read_exact(..).expect(..)`) -/
+theorem strict_all : blueprintSpec.strict = true ∧ metricSpec.strict = true ∧ lookupSpec.strict = true ∧
+    transitionsSpec.strict = true := by decide
+
+/-- generic form: a strict loader fails on every strict prefix of a saved file -/
+theorem load_prefix_fails {σ : Type} (s : Spec) (ins : List Nat → σ → σ) (init : σ)
+    (hs : specOK s = true) (hstrict : s.strict = true) (rows : List (List Nat))
+    (hf : ∀ r ∈ rows, fits s.wfields r) (k : Nat) (hk : k < (encode s rows).length) :
+    load s ins init ((encode s rows).take k) = none := by
+  simp only [load, hstrict]
+  exact loadWith_prefix_strict s ins init hs rows hf k hk
+
+/-! ## the four loaders: every strict prefix fails -/
+
+theorem C18_blueprint_fails (rows : List PRow) (hb : ∀ r ∈ rows, PRow.ok r)
+    (k : Nat) (hk : k < (saveBlueprint rows).length) :
+    loadBlueprint ((saveBlueprint rows).take k) = none :=
+  load_prefix_fails _ _ _ specOK_all.1 strict_all.1 _ (fits_map _ _ rows PRow.ok fits_blueprint hb) k hk
+
+theorem C18_metric_fails (rows : List MRow) (hb : ∀ r ∈ rows, MRow.ok r)
+    (k : Nat) (hk : k < (saveMetric rows).length) :
+    loadMetric ((saveMetric rows).take k) = none :=
+  load_prefix_fails _ _ _ specOK_all.2.1 strict_all.2.1 _ (fits_map _ _ rows MRow.ok fits_metric hb) k hk
+
+theorem C18_lookup_fails (rows : List LRow) (hb : ∀ r ∈ rows, LRow.ok r)
+    (k : Nat) (hk : k < (saveLookup rows).length) :
+    loadLookup ((saveLookup rows).take k) = none :=
+  load_prefix_fails _ _ _ specOK_all.2.2.1 strict_all.2.2.1 _ (fits_map _ _ rows LRow.ok fits_lookup hb) k hk
+
+theorem C18_transitions_fails (conv : Nat → Nat) (rows : List TRow) (hb : ∀ r ∈ rows, TRow.ok r)
+    (k : Nat) (hk : k < (saveTransitions rows).length) :
+    loadTransitions conv ((saveTransitions rows).take k) = none :=
+  load_prefix_fails _ _ _ specOK_all.2.2.2 strict_all.2.2.2 _ (fits_map _ _ rows TRow.ok fits_transitions hb) k hk
+
+/-! ## the property as stated: fail, or exactly the complete content -/
+
+/-- **C18, blueprint**: `∀ t k, k < |save t| → load (take k (save t)) = fail ∨ = load (save t)`
+    (and `load (save t) = ok t` is C17). -/
+theorem C18_blueprint (rows : List PRow) (hb : ∀ r ∈ rows, PRow.ok r)
+    (k : Nat) (hk : k < (saveBlueprint rows).length) :
+    loadBlueprint ((saveBlueprint rows).take k) = none ∨
+      loadBlueprint ((saveBlueprint rows).take k) = loadBlueprint (saveBlueprint rows) :=
+  Or.inl (C18_blueprint_fails rows hb k hk)
+
+theorem C18_metric (rows : List MRow) (hb : ∀ r ∈ rows, MRow.ok r)
+    (k : Nat) (hk : k < (saveMetric rows).length) :
+    loadMetric ((saveMetric rows).take k) = none ∨
+      loadMetric ((saveMetric rows).take k) = loadMetric (saveMetric rows) :=
+  Or.inl (C18_metric_fails rows hb k hk)
+
+theorem C18_lookup (rows : List LRow) (hb : ∀ r ∈ rows, LRow.ok r)
+    (k : Nat) (hk : k < (saveLookup rows).length) :
+    loadLookup ((saveLookup rows).take k) = none ∨
+      loadLookup ((saveLookup rows).take k) = loadLookup (saveLookup rows) :=
+  Or.inl (C18_lookup_fails rows hb k hk)
+
+theorem C18_transitions (conv : Nat → Nat) (rows : List TRow) (hb : ∀ r ∈ rows, TRow.ok r)
+    (k : Nat) (hk : k < (saveTransitions rows).length) :
+    loadTransitions conv ((saveTransitions rows).take k) = none ∨
+      loadTransitions conv ((saveTransitions rows).take k) = loadTransitions conv (saveTransitions rows) :=
+  Or.inl (C18_transitions_fails conv rows hb k hk)
+
+/-- the complete file does load (so the theorems above are not about a loader that always fails) -/
+theorem C18_complete_loads_transitions (conv : Nat → Nat) (rows : List TRow) (hb : ∀ r ∈ rows, TRow.ok r) :
+    loadTransitions conv (saveTransitions rows)
+      = some ((rows.map TRow.toWire).foldl (fun a r => transitionsIns conv r a) []) := by
+  simp only [loadTransitions, saveTransitions, load]
+  exact loadWith_encode _ _ _ _ specOK_all.2.2.2 _ (fits_map _ _ rows TRow.ok fits_transitions hb)
+
+-- non-vacuity: a two-row metric file has 65 bytes; every one of the 65 strict prefixes fails, the
+-- complete file loads both rows
+example : (saveMetric [⟨3, 7⟩, ⟨5, 0x3f800000⟩]).length = 65 := by decide +kernel
+example : (List.range 65).all (fun k => loadMetric ((saveMetric [⟨3, 7⟩, ⟨5, 0x3f800000⟩]).take k) == none) = true := by
+  decide +kernel
+example : loadMetric (saveMetric [⟨3, 7⟩, ⟨5, 0x3f800000⟩]) = some [(3, 7), (5, 0x3f800000)] := by decide +kernel
+example : loadTransitions (fun w => w / 2) ((saveTransitions [⟨1, 2, 8⟩]).take 55) = none := by decide +kernel
+example : loadTransitions (fun w => w / 2) (saveTransitions [⟨1, 2, 8⟩]) = some [(1, (4, [(2, 4)]))] := by decide +kernel
+
+/-! ## the pinned loaders (trailer optional): a cut at a row boundary loads short -/
+
+theorem rowLen_all : rowLen blueprintSpec = 66 ∧ rowLen metricSpec = 22 ∧ rowLen lookupSpec = 26 ∧
+    rowLen transitionsSpec = 34 ∧ blueprintSpec.header.length = 19 ∧ metricSpec.header.length = 19 ∧
+    lookupSpec.header.length = 19 ∧ transitionsSpec.header.length = 19 := by decide
+
+/-- generic: the non-strict loop returns the first `j` rows for a file cut after `j` rows -/
+theorem pinned_boundary {σ : Type} (s : Spec) (ins : List Nat → σ → σ) (init : σ) (hs : specOK s = true)
+    (rows more : List (List Nat)) (hf : ∀ r ∈ rows, fits s.wfields r) :
+    loadWith s false ins init ((encode s (rows ++ more)).take (s.header.length + rows.length * rowLen s))
+      = some (rows.foldl (fun a r => ins r a) init) := by
+  have := loadWith_boundary_nonstrict s ins init hs rows more hf
+  rw [encRows_length hf] at this
+  exact this
+
+/-- **pinned blueprint loader**: cut after `j` rows (byte `19 + 66·j`) ⇒ those `j` rows, no error -/
+theorem C18_pinned_blueprint_loads_short (rows more : List PRow) (hb : ∀ r ∈ rows, PRow.ok r) :
+    loadBlueprintWith false ((saveBlueprint (rows ++ more)).take (19 + rows.length * 66))
+      = some (buildP rows []) := by
+  have := pinned_boundary blueprintSpec blueprintIns [] specOK_all.1 (rows.map PRow.toWire)
+    (more.map PRow.toWire) (fits_map _ _ rows PRow.ok fits_blueprint hb)
+  rw [rowLen_all.1, rowLen_all.2.2.2.2.1, List.length_map, ← List.map_append] at this
+  simp only [loadBlueprintWith, saveBlueprint]
+  rw [this]
+  simp only [List.foldl_map, buildP]
+  rfl
+
+/-- **pinned metric loader**: cut after `j` rows (byte `19 + 22·j`) ⇒ those `j` rows, no error -/
+theorem C18_pinned_metric_loads_short (rows more : List MRow) (hb : ∀ r ∈ rows, MRow.ok r) :
+    loadMetricWith false ((saveMetric (rows ++ more)).take (19 + rows.length * 22))
+      = some (buildKV (rows.map (fun r => (r.xor, r.dx))) []) := by
+  have := pinned_boundary metricSpec metricIns [] specOK_all.2.1 (rows.map MRow.toWire)
+    (more.map MRow.toWire) (fits_map _ _ rows MRow.ok fits_metric hb)
+  rw [rowLen_all.2.1, rowLen_all.2.2.2.2.2.1, List.length_map, ← List.map_append] at this
+  simp only [loadMetricWith, saveMetric]
+  rw [this]
+  simp only [List.foldl_map, buildKV]
+  rfl
+
+/-- **pinned lookup loader** -/
+theorem C18_pinned_lookup_loads_short (rows more : List LRow) (hb : ∀ r ∈ rows, LRow.ok r) :
+    loadLookupWith false ((saveLookup (rows ++ more)).take (19 + rows.length * 26))
+      = some (buildKV (rows.map (fun r => (r.obs, r.abs))) []) := by
+  have := pinned_boundary lookupSpec lookupIns [] specOK_all.2.2.1 (rows.map LRow.toWire)
+    (more.map LRow.toWire) (fits_map _ _ rows LRow.ok fits_lookup hb)
+  rw [rowLen_all.2.2.1, rowLen_all.2.2.2.2.2.2.1, List.length_map, ← List.map_append] at this
+  simp only [loadLookupWith, saveLookup]
+  rw [this]
+  simp only [List.foldl_map, buildKV]
+  rfl
+
+/-- **pinned transitions loader** -/
+theorem C18_pinned_transitions_loads_short (conv : Nat → Nat) (rows more : List TRow) (hb : ∀ r ∈ rows, TRow.ok r) :
+    loadTransitionsWith conv false ((saveTransitions (rows ++ more)).take (19 + rows.length * 34))
+      = some ((rows.map TRow.toWire).foldl (fun a r => transitionsIns conv r a) []) := by
+  have := pinned_boundary transitionsSpec (transitionsIns conv) [] specOK_all.2.2.2 (rows.map TRow.toWire)
+    (more.map TRow.toWire) (fits_map _ _ rows TRow.ok fits_transitions hb)
+  rw [rowLen_all.2.2.2.1, rowLen_all.2.2.2.2.2.2.2, List.length_map, ← List.map_append] at this
+  simp only [loadTransitionsWith, saveTransitions]
+  exact this
+
+/-- **the pinned semantics violates the property** (witness): a two-row metric file cut at byte 41
+    (after the first row) loads without error and one row is missing; also a cut inside the header
+    (byte 10) loads an empty table. -/
+theorem C18_pinned_violates :
+    (41 < (saveMetric [⟨3, 7⟩, ⟨5, 0x3f800000⟩]).length) ∧
+    loadMetricWith false ((saveMetric [⟨3, 7⟩, ⟨5, 0x3f800000⟩]).take 41) = some [(3, 7)] ∧
+    loadMetricWith false (saveMetric [⟨3, 7⟩, ⟨5, 0x3f800000⟩]) = some [(3, 7), (5, 0x3f800000)] ∧
+    loadMetricWith false ((saveMetric [⟨3, 7⟩, ⟨5, 0x3f800000⟩]).take 10) = some [] ∧
+    -- the repaired loader on the same cuts
+    loadMetric ((saveMetric [⟨3, 7⟩, ⟨5, 0x3f800000⟩]).take 41) = none ∧
+    loadMetric ((saveMetric [⟨3, 7⟩, ⟨5, 0x3f800000⟩]).take 10) = none := by
+  decide +kernel
+
+end RP.C18
